@@ -12,8 +12,8 @@ from ..core import SubCheck, Fail, Discard, HarnessError, metric
 from ..oracles import sinex_file as SX
 
 RULE = ("generated SINEX 2.02 files: 1..12 parameter sets over 1..8 station codes (codes may carry solution numbers 1..3), with / "
-        "without velocities, L and U matrices from random positive-definite covariances with exact zero blocks, optional "
-        "FILE/COMMENT, header stamps that do or do not collide with other header fields; removal sets drawn per file plus every "
+        "without velocities, L and U matrices from random positive-definite covariances (scales 1e-24 .. 1e-2, weakly correlated "
+        "stations) with exact zero blocks, one- and two-character point codes, four techniques, optional FILE/COMMENT with data lines, header stamps that do or do not collide with other header fields; removal sets drawn per file plus every "
         "proper subset for files with <= 5 codes; wall clock substituted over the whole day and the year boundaries; "
         "non-trivial = proper non-empty removal set, or clock before 02:46:40")
 ASSUMPTIONS = ["well-formed input: complete triangles, every matrix row present, fixed columns of SINEX 2.02",
